@@ -237,7 +237,7 @@ def _gen_arange(rng):
         if dtype in ("int64", "int32", "uint8") and isfloat:
             # Calibration: integer dtype + float arguments is a NumPy quirk (DESIGN section 9)
             dtype = None
-        if dtype == "float32" and big:
+        if dtype in ("float32", "int32") and big:
             dtype = None
         with warnings.catch_warnings():
             warnings.simplefilter("ignore")
@@ -248,6 +248,13 @@ def _gen_arange(rng):
         if ln > 40:
             continue
         del isfrac
+        if dtype == "uint8":
+            # Calibration: values outside the integer dtype's range wrap around in NumPy (value dependent): excluded
+            a0 = 0 if len(args) == 1 else args[0]
+            st = args[2] if len(args) == 3 else 1
+            a1 = args[0] if len(args) == 1 else args[1]
+            if min(a0, a1, a0 + st * ln) < 0 or max(a0, a1, a0 + st * ln) > 255:
+                dtype = None
         return {"args": args, "dtype": dtype, "chunks": _spec(rng, (ln,))}
     return {"args": [5], "dtype": None, "chunks": {"t": "int", "v": 2}}
 
@@ -357,6 +364,15 @@ def _feat(case, extra=()):
     return "&".join(f) if f else "plain"
 
 
+def _lab(case, symptom):
+    f = _feat(case)
+    if case["op"] == "eye" and f == "M>N&chunk>N":
+        # one mechanism (the first row-chunk size is reused as the column chunk size): missing blocks, blocks of the
+        # wrong shape and wrong values are the same defect seen at different (N, M, chunks)
+        symptom = "blocks-inconsistent-with-chunks"
+    return "%s:%s:%s" % (case["op"], f, symptom)
+
+
 def _auto_zero(case):
     """An 'auto' entry next to a zero-length dimension that is not 'auto' itself (mixed chunk tuples)."""
     sp = case.get("chunks")
@@ -381,7 +397,10 @@ def _exception(ctx, ex, case):
         # one mechanism whatever the routine: normalize_chunks with 'auto' next to a zero-length non-auto dimension
         ctx.exception(root, prefix="chunks-auto:zero-length-non-auto-dim")
     else:
-        ctx.exception(root, prefix="%s:%s" % (case["op"], _feat(case)))
+        if case["op"] == "eye" and _feat(case) == "M>N&chunk>N":
+            ctx.violation(_lab(case, ""), "%s: %s" % (type(root).__name__, str(root)[:300]))
+        else:
+            ctx.exception(root, prefix="%s:%s" % (case["op"], _feat(case)))
 
 
 def run_case(case, ctx):
@@ -540,11 +559,11 @@ def run_case(case, ctx):
                 else:
                     m = compare_arrays(rv, ev, exact=exact, n=tol_n, scale=tol_scale, factor=4.0)
                 if m:
-                    ctx.violation("%s:%s:%s" % (op, _feat(case), m[0]), m[1], chunks=str(r.chunks))
+                    ctx.violation(_lab(case, m[0]), m[1], chunks=str(r.chunks))
                 ctx.count("lazy_meta_checked")
                 m = lazy_meta_mismatch(r, rv)
                 if m:
-                    ctx.violation("%s:%s:%s" % (op, _feat(case), m[0]), m[1], chunks=str(r.chunks))
+                    ctx.violation(_lab(case, m[0]), m[1], chunks=str(r.chunks))
                 if case.get("blocks") and not empty:
                     ctx.count("blocks_checked")
                     try:
@@ -553,7 +572,7 @@ def run_case(case, ctx):
                         ctx.exception(ex, prefix="%s:%s:blocks" % (op, _feat(case)))
                         m = None
                     if m:
-                        ctx.violation("%s:%s:%s" % (op, _feat(case), m[0]), m[1], chunks=str(r.chunks))
+                        ctx.violation(_lab(case, m[0]), m[1], chunks=str(r.chunks))
             for name, got, exp in extra_pairs:
                 ctx.count("retstep_compared")
                 g, x_ = float(got), float(exp)
